@@ -239,6 +239,7 @@ def run(pr, repo):
     pr.add(Ground('OP: -i/--titrate_only is parsed by parse_res_list into options.titrate_only', ok))
     pr.assumptions += ['composition step (bounded monitor: listed vs reported set; all residues vs no option)',
                        'copied atoms keep their insertion code: Atom.make_copy is checked in the monitor with multi-conformation input']
+    pr.assumptions.append('residue identity = label as in the code (chain + number, no insertion code): inputs with insertion-code twins of one residue type are outside what is shown here (known finding D9, DESIGN 10.5)')
     bounded(pr)
 
 
